@@ -16,7 +16,8 @@ import (
 type Filter struct {
 	Script
 	// root is the document a $ in the script refers to when the filter is
-	// the last fragment of a Remove, rooted says it is set.
+	// the last fragment of a Remove or part of a path handed to Locate or
+	// Walk, rooted says it is set.
 	root   any
 	rooted bool
 }
@@ -33,6 +34,24 @@ func (f *Filter) match(v any) bool {
 // against root.
 func (f *Filter) withRoot(root any) *Filter {
 	return &Filter{Script: f.Script, root: root, rooted: true}
+}
+
+// rootedFilters returns x with every filter given data as the document a $
+// in its script refers to, as Get does. It is x itself if x has no filter.
+func (x Expr) rootedFilters(data any) Expr {
+	for i, f := range x {
+		if _, ok := f.(*Filter); ok {
+			rx := make(Expr, len(x))
+			copy(rx, x)
+			for ; i < len(rx); i++ {
+				if tf, ok := rx[i].(*Filter); ok {
+					rx[i] = tf.withRoot(data)
+				}
+			}
+			return rx
+		}
+	}
+	return x
 }
 
 // NewFilter creates a new Filter.
@@ -309,7 +328,7 @@ func (f *Filter) removeOne(value any) (out any, changed bool) {
 }
 
 func (f *Filter) locate(pp Expr, data any, rest Expr, max int) (locs []Expr) {
-	ns, lcs := f.evalWithRoot([]any{}, data, nil)
+	ns, lcs := f.evalWithRoot([]any{}, data, f.root)
 	stack, _ := ns.([]any)
 	if len(rest) == 0 { // last one
 		for _, lc := range lcs {
@@ -339,7 +358,7 @@ func (f *Filter) Walk(rest, path Expr, nodes []any, cb func(path Expr, nodes []a
 	switch tv := data.(type) {
 	case []any:
 		for i, v := range tv {
-			if f.Match(v) {
+			if f.match(v) {
 				path[len(path)-1] = Nth(i)
 				nodes[len(nodes)-1] = v
 				if 0 < len(rest) {
@@ -353,7 +372,7 @@ func (f *Filter) Walk(rest, path Expr, nodes []any, cb func(path Expr, nodes []a
 		size := tv.Size()
 		for i := 0; i < size; i++ {
 			v := tv.ValueAtIndex(i)
-			if f.Match(v) {
+			if f.match(v) {
 				path[len(path)-1] = Nth(i)
 				nodes[len(nodes)-1] = v
 				if 0 < len(rest) {
@@ -365,7 +384,7 @@ func (f *Filter) Walk(rest, path Expr, nodes []any, cb func(path Expr, nodes []a
 		}
 	case gen.Array:
 		for i, v := range tv {
-			if f.Match(v) {
+			if f.match(v) {
 				path[len(path)-1] = Nth(i)
 				nodes[len(nodes)-1] = v
 				if 0 < len(rest) {
@@ -383,7 +402,7 @@ func (f *Filter) Walk(rest, path Expr, nodes []any, cb func(path Expr, nodes []a
 			}
 			sort.Strings(keys)
 			for _, k := range keys {
-				if f.Match(tv[k]) {
+				if f.match(tv[k]) {
 					path[len(path)-1] = Child(k)
 					nodes[len(nodes)-1] = tv[k]
 					if 0 < len(rest) {
@@ -402,7 +421,7 @@ func (f *Filter) Walk(rest, path Expr, nodes []any, cb func(path Expr, nodes []a
 			}
 			sort.Strings(keys)
 			for _, k := range keys {
-				if f.Match(tv[k]) {
+				if f.match(tv[k]) {
 					path[len(path)-1] = Child(k)
 					nodes[len(nodes)-1] = tv[k]
 					if 0 < len(rest) {
@@ -418,7 +437,7 @@ func (f *Filter) Walk(rest, path Expr, nodes []any, cb func(path Expr, nodes []a
 		sort.Strings(keys)
 		for _, key := range keys {
 			v, _ := tv.ValueForKey(key)
-			if f.Match(v) {
+			if f.match(v) {
 				path[len(path)-1] = Child(key)
 				nodes[len(nodes)-1] = v
 				if 0 < len(rest) {
@@ -435,7 +454,7 @@ func (f *Filter) Walk(rest, path Expr, nodes []any, cb func(path Expr, nodes []a
 			cnt := rv.Len()
 			for i := 0; i < cnt; i++ {
 				v := rv.Index(i).Interface()
-				if f.Match(v) {
+				if f.match(v) {
 					path[len(path)-1] = Nth(i)
 					nodes[len(nodes)-1] = v
 					if 0 < len(rest) {
@@ -453,7 +472,7 @@ func (f *Filter) Walk(rest, path Expr, nodes []any, cb func(path Expr, nodes []a
 			for _, k := range keys {
 				mv := rv.MapIndex(k)
 				v := mv.Interface()
-				if f.Match(v) {
+				if f.match(v) {
 					path[len(path)-1] = Child(k.String())
 					nodes[len(nodes)-1] = v
 					if 0 < len(rest) {
@@ -472,7 +491,7 @@ func (f *Filter) Walk(rest, path Expr, nodes []any, cb func(path Expr, nodes []a
 					continue
 				}
 				v := fv.Interface()
-				if f.Match(v) {
+				if f.match(v) {
 					path[len(path)-1] = Child(rt.Field(i).Name)
 					nodes[len(nodes)-1] = v
 					if 0 < len(rest) {
